@@ -426,7 +426,8 @@ pub const REAL_MAPS: [(&str, usize); 4] = [
 ];
 
 pub fn load_real(idx: usize) -> MapText {
-    let path = format!("/repo/resources/{}", REAL_MAPS[idx].0);
+    // the repository under test: /verif/repo-link (-> /repo), resolved relative to this crate
+    let path = format!("{}/../repo-link/resources/{}", env!("CARGO_MANIFEST_DIR"), REAL_MAPS[idx].0);
     let bytes = std::fs::read(&path).unwrap_or_else(|e| panic!("harness: cannot read {path}: {e}"));
     MapText::parse(&String::from_utf8_lossy(&bytes))
 }
